@@ -846,10 +846,85 @@ class C11Executor(_verify.Executor):
                 outs.append(o)
         return outs
 
+    # -- round 8: `with contextlib.ExitStack() as K: K.callback(f, a..); ...; <rest>` where the registrations are the FIRST
+    #    statements of the body, K is used nowhere else, f / a.. are names, constants or attribute chains of names that <rest> never
+    #    rebinds, is by the documented semantics of ExitStack (callbacks run last-in first-out on every exit, their result never
+    #    suppresses, an exception they raise replaces the one in flight) `try: <rest> finally: f(a..)` -- executed as that.
+    def _exitstack_try(self, s, st):
+        import ast as _ast
+        if isinstance(s, _ast.AsyncWith) or len(s.items) != 1:
+            return None
+        item = s.items[0]
+        c = item.context_expr
+        if not (isinstance(c, _ast.Call) and not c.args and not c.keywords and isinstance(item.optional_vars, _ast.Name)):
+            return None
+        f = c.func
+        imp = self.module.imports
+        if isinstance(f, _ast.Attribute) and isinstance(f.value, _ast.Name):
+            ok = f.attr == "ExitStack" and imp.get(f.value.id) == "contextlib" and st.lookup(f.value.id) is None
+        elif isinstance(f, _ast.Name):
+            ok = imp.get(f.id) == "contextlib.ExitStack" and st.lookup(f.id) is None
+        else:
+            ok = False
+        if not ok:
+            return None
+        k = item.optional_vars.id
+        regs, rest = [], list(s.body)
+        while rest:
+            x = rest[0]
+            if (isinstance(x, _ast.Expr) and isinstance(x.value, _ast.Call) and isinstance(x.value.func, _ast.Attribute)
+                    and isinstance(x.value.func.value, _ast.Name) and x.value.func.value.id == k and x.value.func.attr == "callback"
+                    and x.value.args and not any(isinstance(y, _ast.Starred) for y in x.value.args)
+                    and all(kw.arg is not None for kw in x.value.keywords)):
+                regs.append(x.value)
+                rest.pop(0)
+            else:
+                break
+        if not regs or not rest:
+            return None
+        used = set()
+
+        def plain(e):
+            if isinstance(e, _ast.Constant):
+                return True
+            while isinstance(e, _ast.Attribute):
+                e = e.value
+            if isinstance(e, _ast.Name) and e.id != k:
+                used.add(e.id)
+                return True
+            return False
+        for r in regs:
+            if not all(plain(e) for e in list(r.args) + [kw.value for kw in r.keywords]):
+                return None
+        for x in rest:
+            for y in _ast.walk(x):
+                if isinstance(y, _ast.Name) and (y.id == k or (y.id in used and not isinstance(y.ctx, _ast.Load))):
+                    return None
+                if isinstance(y, (_ast.Global, _ast.Nonlocal, _ast.Yield, _ast.YieldFrom, _ast.Await)):
+                    return None
+                if isinstance(y, _ast.arg) and y.arg in used | {k}:
+                    return None
+        final = []
+        for r in reversed(regs):
+            call = _ast.Call(func=r.args[0], args=list(r.args[1:]), keywords=list(r.keywords))
+            e = _ast.Expr(value=call)
+            _ast.copy_location(call, r)
+            _ast.copy_location(e, r)
+            final.append(e)
+        t = _ast.Try(body=rest, handlers=[], orelse=[], finalbody=final)
+        _ast.copy_location(t, s)
+        return t
+
     def s_With(self, s, st):
         import ast as _ast
         from pyvc.symex import Outcome
         from pyvc.values import VRef, VExc
+        try:
+            t = self._exitstack_try(s, st)
+        except Exception:  # noqa -- not a shape read here: the engine decides
+            t = None
+        if t is not None:
+            return self.exec_stmt(t, st)
         try:
             gen = [self._generator_cm(it, st) for it in s.items] if not isinstance(s, _ast.AsyncWith) else []
         except Exception:  # noqa -- not a shape read here: the engine decides
@@ -1112,6 +1187,8 @@ class C11Executor(_verify.Executor):
                     return None
                 if isinstance(x, _ast.Name) and x.id not in own:
                     v = st.lookup(x.id)
+                    if v is None and self._immutable_module_literal(x.id):
+                        continue       # round 8: a literal hoisted into a module constant (`_TAG = "encryption-data"`)
                     if not isinstance(v, (VUnk, VInt, VBool, VStr, VReal, VNoneT)):
                         return None
         outs = []
@@ -1122,11 +1199,62 @@ class C11Executor(_verify.Executor):
             outs.append((s2, VBool(z3.Bool(fresh_name(n.func.id)))))
         return outs
 
+    # -- round 8: a module-level name of the module under execution whose ONLY binding is `NAME = <literal>` with an immutable
+    #    literal value (str / bytes / number / bool / None, tuples of those): not a parameter or local, not a function / class /
+    #    import, never declared `global` in a function, no `globals()` / `setattr` / `exec` reflection in the module.  Loading it
+    #    cannot touch a container, a stream or a heap object, whatever its value.
+    def _immutable_module_literal(self, name):
+        import ast as _ast
+        mod = self.module
+        if name in mod.functions or name in mod.classes or name in mod.imports or name not in mod.assigns:
+            return False
+        if (mod.rel, name) in self.reg.module_consts:
+            return False
+        if self.global_writers(name) or getattr(mod, "_greflect", False):
+            return False
+        stores = 0
+        for x in _ast.walk(mod.tree):
+            if isinstance(x, _ast.Name) and x.id == name and not isinstance(x.ctx, _ast.Load):
+                stores += 1
+            elif isinstance(x, (_ast.arg,)) and x.arg == name:
+                return False
+            elif isinstance(x, _ast.alias) and (x.asname or x.name.split(".")[0]) == name:
+                return False
+        if stores != 1:
+            return False
+        try:
+            pyv = _ast.literal_eval(mod.assigns[name])
+        except (ValueError, SyntaxError, TypeError, MemoryError, RecursionError):
+            return False
+
+        def flat(v, depth=0):
+            if v is None or isinstance(v, (str, bytes, bool, int, float)):
+                return True
+            return isinstance(v, tuple) and depth < 3 and all(flat(y, depth + 1) for y in v)
+        return flat(pyv)
+
+    # -- round 8: the builtin `format(x)` with ONE argument is by definition what the f-string field `{x}` evaluates
+    #    (`format(x, "")`): it gets the engine's f-string semantics instead of "unmodelled call, may raise anything", so a message
+    #    written as `"[" + format(source) + "]"` reads like the f-string it replaces.
+    def _format_one(self, n, st):
+        import ast as _ast
+        if not (isinstance(n.func, _ast.Name) and n.func.id == "format" and len(n.args) == 1 and not n.keywords
+                and not isinstance(n.args[0], _ast.Starred) and st.lookup("format") is None
+                and "format" not in self.module.functions and "format" not in self.module.assigns
+                and "format" not in self.module.imports and "format" not in self.module.classes):
+            return None
+        js = _ast.JoinedStr(values=[_ast.FormattedValue(value=n.args[0], conversion=-1, format_spec=None)])
+        _ast.copy_location(js, n)
+        _ast.copy_location(js.values[0], n)
+        return self.ev(js, st)
+
     def e_Call(self, n, st):
         try:
             r = self._upfront_sum(n, st)
             if r is None:
                 r = self._opaque_any(n, st)
+            if r is None:
+                r = self._format_one(n, st)
         except ops.Unsupported:
             raise
         except Exception as e:  # noqa -- not a shape read here: the engine decides
